@@ -49,6 +49,7 @@ type propSpec struct {
 	Quick    []string
 	Thorough []string
 	Special  string
+	Situ     string // in-situ monitor run on a wrap-instrumented second copy (field|digits|lattice)
 	TimeoutS int
 	Assume   []string
 	Workers  int // 0 = auto
@@ -481,6 +482,9 @@ func check(spec propSpec, tier string, seed int64, replayFile string) int {
 			}(i, cn)
 		}
 		wg.Wait()
+	}
+	if spec.Situ != "" && replayFile == "" && os.Getenv("VERIF_NO_SITU") == "" {
+		outs = append(outs, runSitu(c, spec.Situ, cfgNames)...)
 	}
 	if spec.Special == "c06" && replayFile == "" && (tier == "thorough" || os.Getenv("VERIF_C06_REACH") != "") {
 		c.extra = map[string]any{"reach_meter": reachMeter(c)}
